@@ -124,6 +124,43 @@ func genC15(tier string, seed uint64, emit func(string)) {
 		acts = append(acts, "stop", "obs")
 		emit(lifeLine("plain", acts))
 	}
+	// forced schedules (hook H2): in each scenario the goroutines reaching the chosen schedule points are held back for
+	// 25 ms, so that the lifecycle call, the accept loops and the connection goroutines overtake each other in
+	// every order of those points - all single points and all pairs (quick), all subsets (thorough)
+	points := []string{"start-opened", "accepted", "loop-exit", "registered", "conn-start", "stop-listeners-closed", "stop-loops-done", "stop-conns-closed"}
+	scenarios := [][]string{
+		{"start", "open:p:a", "restart", "obs", "ping:p", "open:p:b", "alive:a", "stop", "obs", "alive:b"},
+		{"start", "open:p:a", "stopstorm", "obs", "alive:a", "start", "ping:p", "stop", "obs"},
+		{"start", "ping:p", "open:p:a", "cclose:a", "obs", "restart", "ping:p", "restart", "obs", "ping:p", "stop", "obs"},
+	}
+	var subsets [][]string
+	for i := range points {
+		subsets = append(subsets, []string{points[i]})
+		for j := i + 1; j < len(points); j++ {
+			subsets = append(subsets, []string{points[i], points[j]})
+		}
+	}
+	if tier == "thorough" {
+		subsets = nil
+		for m := 1; m < 1<<len(points); m++ {
+			var sub []string
+			for i := range points {
+				if m&(1<<i) != 0 {
+					sub = append(sub, points[i])
+				}
+			}
+			subsets = append(subsets, sub)
+		}
+	}
+	for _, sc := range scenarios {
+		for _, sub := range subsets {
+			var ds []string
+			for _, p := range sub {
+				ds = append(ds, p+":25")
+			}
+			emit(lifeLine("plain delay="+strings.Join(ds, ","), sc))
+		}
+	}
 	// Stop while clients keep connecting: a connection accepted while Stop runs must not survive it or block it
 	storms := 4
 	if tier == "thorough" {
